@@ -607,6 +607,14 @@ int main(int argc, char **argv) {
       for (long i = lo; i < hi; i++)
         h = (h ^ b[i]) * 1099511628211ULL;
       oprintf("S %016llx\n", (unsigned long long)h);
+    } else if (!strcmp(c, "sumoff")) {
+      /* fingerprint of the code [0, offset) as seen through the public getters */
+      long hi = asm_get_offset(x->al);
+      uint8_t *b = asm_get_code(x->al);
+      uint64_t h = 1469598103934665603ULL;
+      for (long i = 0; i < hi; i++)
+        h = (h ^ b[i]) * 1099511628211ULL;
+      oprintf("S %ld %016llx\n", hi, (unsigned long long)h);
     } else if (!strcmp(c, "guard")) {
       long first = 0, can = check_canary(x, &first);
       oprintf("U %ld %ld\n", can, first);
